@@ -88,6 +88,48 @@ def install_api():
     ra.time = ts; ra.datetime = VDateTime; ra.uuid = us
     return ra
 
+def release_store_threads(engine):
+    """A Redis-backed store parks a listener thread on its invalidation subscription.  When its process is gone (crash, end of
+    a run) nothing is sent to anybody - the thread is simply released, and the store's destructor is left with nothing to do
+    (it would otherwise run whenever the garbage collector gets to it, talking to whatever server exists then)."""
+    if engine is None:
+        return
+    for v in list(vars(engine).values()):
+        if hasattr(v, "tracker_id") and hasattr(v, "weakref_to_pubsub"):
+            try:
+                ps = v.weakref_to_pubsub()
+                if ps is not None:
+                    ps.close()
+                t = getattr(v, "tracker_thread", None)
+                if t is not None and t.is_alive():
+                    t.join(1)
+            except Exception:
+                pass
+            v.tracker_id = None
+        elif hasattr(v, "tracker_id"):
+            v.tracker_id = None
+
+def _drain_loop():
+    """The asyncio loop is shared by every World of a process (the REST front ends run on it): whatever a finished World left
+    on it - a StartSyncExecution request still waiting for its answer, a callback scheduled by a front end - must not run
+    inside the next World, where it would publish into the new broker the first time the loop turns."""
+    if _loop is None or _loop.is_closed():
+        return
+    try:
+        for _ in range(3):
+            tasks = [t for t in asyncio.all_tasks(_loop) if not t.done()]
+            for t in tasks:
+                t.cancel()
+            _loop.run_until_complete(asyncio.sleep(0))
+            if not tasks:
+                break
+        _loop._ready.clear()
+        for h in list(_loop._scheduled):
+            h.cancel()
+        _loop._scheduled.clear()
+    except Exception:
+        pass
+
 _tmpdir = None
 def tmpdir():
     global _tmpdir
@@ -198,9 +240,18 @@ class Instance(object):
                 pass
         if getattr(self, "release", None) is not None:
             self.release.set()
+        release_store_threads(self.engine)
         self.engine = None; self.dispatcher = None; self.coro = None
 
 # ------------------------------------------------------------------------------------------------------
+def strip_cause(x):
+    """The payload with every "Cause" member removed (used only to count attempts per payload)."""
+    if isinstance(x, dict):
+        return {k: strip_cause(v) for k, v in x.items() if k != "Cause"}
+    if isinstance(x, list):
+        return [strip_cause(v) for v in x]
+    return x
+
 class Worker(object):
     """
     Scripted task worker for one function queue.  `spec` maps a request key to a list of outcomes by attempt
@@ -217,14 +268,18 @@ class Worker(object):
 
     def outcome(self, payload_text):
         try:
-            key = json.dumps(json.loads(payload_text), sort_keys=True)
+            obj = json.loads(payload_text)
+            key = json.dumps(obj, sort_keys=True)
+            akey = json.dumps(strip_cause(obj), sort_keys=True)
         except ValueError:
-            key = payload_text
+            key = akey = payload_text
         lst = self.spec.get(key)
         if lst is None:
             lst = self.spec.get("*", [["echo"]])
-        n = self.attempts.get(key, 0)
-        self.attempts[key] = n + 1
+        # attempts are counted per payload *without* the free text of error causes: the engine writes the id of the event
+        # that failed into "Cause", which depends on the schedule (and is not part of what the reference computes)
+        n = self.attempts.get(akey, 0)
+        self.attempts[akey] = n + 1
         return lst[min(n, len(lst) - 1)]
 
 # ------------------------------------------------------------------------------------------------------
@@ -233,6 +288,7 @@ class World(object):
 
     def __init__(self, scenario, monitors=()):
         install()
+        _drain_loop()
         self.sc = scenario
         self.shared_queue = "asl_workflow_events" + ("-qq" if scenario.get("queue_type") == "quorum" else "")
         _Cur.world = self
@@ -762,9 +818,7 @@ class World(object):
                 except BaseException:
                     pass
                 inst.coro = None
-            if self.sc.get("store") == "redis" and getattr(inst, "engine", None) is not None:
-                # the stores' destructors would try to talk to a tracker that no longer exists
-                for v in list(vars(inst.engine).values()):
-                    if hasattr(v, "tracker_id"):
-                        v.tracker_id = None
+            if getattr(inst, "engine", None) is not None:
+                release_store_threads(inst.engine)
+        _drain_loop()
         Broker.CURRENT = None
